@@ -110,7 +110,9 @@ def check(repo, res, tier):
     if setter is None:
         raise AnalysisError("parameters setter vanished")
     _check_helpers(repo, res, cls)
-    vals = [Tok("v%d" % i) for i in range(3)]
+    # distinct non-zero numbers play the role of symbols (code that tests a value's truth can still be interpreted);
+    # zero values are exercised separately below
+    vals = [1.25, 2.5, 3.75]
     n_forms = 0
 
     def observe(me):
@@ -161,7 +163,7 @@ def check(repo, res, tier):
                   "dict keyed by %s is bound wrongly: %s" % (keykind, "; ".join(bad[:3])), node=setter.node)
     # ---- partial updates after a full assignment, every non-empty proper subset, from every full form
     bad = []
-    new = [Tok("w%d" % i) for i in range(3)]
+    new = [4.25, 5.5, 6.75]
     n_partial = 0
     for first_label, first in (("list", list(vals)), ("pairs", [(NAMES[i], vals[i]) for i in (2, 0, 1)]), ("dict", {NAMES[i]: vals[i] for i in range(3)})):
         for k in (1, 2):
@@ -203,14 +205,34 @@ def check(repo, res, tier):
     res.check(not bad3, "R-KEEP", setter, "successive-triples(%d sequences)" % n3,
               "after any three assignments in mixed formats every parameter holds the last value given for its name",
               "a sequence of assignments leaves a stale value in force (%d of %d sequences), e.g. %s" % (len(bad3), n3, "; ".join(bad3[:2])), node=setter.node)
+    # ---- the value zero is a value: numeric runs with zeros in every position
+    for tag, value, want in (("zeros(list)", [0.0, 0.5, 0.0], [0.0, 0.5, 0.0]),
+                             ("zeros(pairs)", [("c", 0.0), ("a", 0.0), ("b", 2.0)], [0.0, 2.0, 0.0]),
+                             ("zeros(dict)", {"b": 0.0, "a": 1.0, "c": 0}, [1.0, 0.0, 0])):
+        n_forms += 1
+        me = model(NAMES)
+        try:
+            kind, _ = run_setter(setter, me, value, NAMES)
+            me2 = me
+            got = observe(me2)
+            res.check(kind == "return" and got == want, "R-KV", setter, tag, "zero-valued parameters are bound like any other value",
+                      "%s -> evaluation values %s (%s), expected %s" % (tag, got, kind, want), node=setter.node)
+        except Undecided as e:
+            res.undecided("R-KV", setter, tag, "outside the modelled subset: %s" % e)
+    me = model(NAMES)
+    run_setter(setter, me, [1.0, 2.0, 3.0], NAMES)
+    kind, _ = run_setter(setter, me, {"b": 0.0}, NAMES)
+    n_forms += 1
+    res.check(kind == "return" and observe(me) == [1.0, 0.0, 3.0], "R-KEEP", setter, "partial-update-to-zero", "a partial update to the value 0 takes effect",
+              "after [1, 2, 3] then {'b': 0.0} the evaluation values are %s" % observe(me), node=setter.node)
     # ---- rejections
     rej = [("unknown-name(pairs)", [("a", vals[0]), ("zz", vals[1]), ("c", vals[2])]),
            ("unknown-name(dict)", {"a": vals[0], "zz": vals[1]}),
            ("too-short(list)", [vals[0], vals[1]]),
-           ("too-long(list)", [vals[0], vals[1], vals[2], Tok("v3")]),
-           ("too-long(ndarray)", nd([vals[0], vals[1], vals[2], Tok("v3")])),
-           ("too-long(dict)", {"a": vals[0], "b": vals[1], "c": vals[2], "zz": Tok("v3")}),
-           ("scalar-for-3-parameters", Tok("v0")),
+           ("too-long(list)", [vals[0], vals[1], vals[2], 9.5]),
+           ("too-long(ndarray)", nd([vals[0], vals[1], vals[2], 9.5])),
+           ("too-long(dict)", {"a": vals[0], "b": vals[1], "c": vals[2], "zz": 9.5}),
+           ("scalar-for-3-parameters", 7.5),
            ("list-of-strings", ["x", "y", "z"])]
     for tag, value in rej:
         n_forms += 1
@@ -224,8 +246,8 @@ def check(repo, res, tier):
                   "%s is accepted silently: evaluation values become %s" % (tag, observe(me)), node=setter.node)
     # ---- single-parameter model
     one = ["a"]
-    for tag, value, want in (("single(number)", 0.5, [0.5]), ("single(name, value)", ("a", Tok("v0")), [Tok("v0")]),
-                             ("single(list)", [Tok("v0")], [Tok("v0")]), ("single(dict)", {"a": Tok("v0")}, [Tok("v0")])):
+    for tag, value, want in (("single(number)", 0.5, [0.5]), ("single(name, value)", ("a", 1.25), [1.25]),
+                             ("single(list)", [1.25], [1.25]), ("single(dict)", {"a": 1.25}, [1.25]), ("single(zero)", 0.0, [0.0])):
         n_forms += 1
         me = model(one)
         ab = Abs({}, TYPES, helper_summaries(one), me, GETTERS, eq=eq_hook)
@@ -271,7 +293,7 @@ def sequences_of_three(setter):
                 ref = {}
                 ok = True
                 for step, lab in enumerate((l1, l2, l3)):
-                    v = [Tok("s%d_%d" % (step, i)) for i in range(3)]
+                    v = [10.0 * (step + 1) + i + 0.5 for i in range(3)]
                     val = forms[lab](v)
                     try:
                         kind, _ = run_setter(setter, me, val, NAMES)
